@@ -8,6 +8,15 @@ __CPROVER_requires (len == 0 || __CPROVER_r_ok (key, len))
 __CPROVER_assigns ()
 __CPROVER_ensures (1);
 
+/* ghost record of the hash comparison: the decoder may declare end-of-stream only after it has read
+   the stored check hash (this call) and found it equal to the hash of what it decoded */
+uint64_t vp_last_str2hash;
+unsigned vp_str2hash_calls;
+static inline uint64_t _reduce_str2hash (const uint8_t *s)
+__CPROVER_requires (__CPROVER_r_ok (s, 8))
+__CPROVER_assigns (vp_last_str2hash, vp_str2hash_calls)
+__CPROVER_ensures (__CPROVER_return_value == vp_last_str2hash && vp_str2hash_calls == __CPROVER_old (vp_str2hash_calls) + 1);
+
 #define RD_DEC_WF(d)                                                                           \
   (__CPROVER_is_fresh (d, sizeof (struct reduce_data)) && (d)->u.decode.reader == vp_reader    \
    && (d)->u.decode.buf_get_pos <= (d)->buf_bound && (d)->buf_bound <= _REDUCE_BUF_LEN         \
@@ -18,13 +27,17 @@ __CPROVER_ensures (1);
    -1 without end-of-stream leaves ok_p == 0, which reduce_decode_finish turns into failure. */
 static inline int reduce_decode_get (struct reduce_data *data)
 __CPROVER_requires (RD_DEC_WF (data))
-__CPROVER_assigns (__CPROVER_object_whole (data))
+__CPROVER_assigns (__CPROVER_object_whole (data), vp_last_str2hash, vp_str2hash_calls)
 __CPROVER_ensures (__CPROVER_return_value >= -1 && __CPROVER_return_value <= 255)
 __CPROVER_ensures (data->u.decode.buf_get_pos <= data->buf_bound && data->buf_bound <= _REDUCE_BUF_LEN)
 __CPROVER_ensures (data->u.decode.reader == vp_reader)
 __CPROVER_ensures (__CPROVER_return_value == -1 && !data->u.decode.eof_p ==> data->ok_p == 0)
 __CPROVER_ensures (__CPROVER_return_value >= 0 ==> data->u.decode.buf_get_pos >= 1)
-__CPROVER_ensures (__CPROVER_old (data->ok_p) == 0 ==> data->ok_p == 0);
+__CPROVER_ensures (__CPROVER_old (data->ok_p) == 0 ==> data->ok_p == 0)
+/* "never trusts a damaged stream": end of stream is declared only after the stored hash was read and
+   equals the hash of the decoded data */
+__CPROVER_ensures (data->u.decode.eof_p && !__CPROVER_old (data->u.decode.eof_p)
+                   ==> (vp_str2hash_calls == __CPROVER_old (vp_str2hash_calls) + 1 && data->check_hash == vp_last_str2hash));
 
 /* malformed numbers are failures (-1), never aborts; values fit 28 bits */
 static inline int64_t _reduce_uint_read (reduce_reader_t reader, void *aux_data)
@@ -37,4 +50,19 @@ __CPROVER_requires (VP_ALLOC_OK (alloc) && RD_DEC_WF (data))
 __CPROVER_assigns () __CPROVER_frees (data)
 __CPROVER_ensures (__CPROVER_return_value != 0 ==> (__CPROVER_old (data->ok_p) != 0 && __CPROVER_old (data->u.decode.eof_p) != 0))
 __CPROVER_ensures (__CPROVER_was_freed (__CPROVER_old (data)));
+
+/* encoder side: the literal run never exceeds its buffer (and the decoder's limit _REDUCE_MAX_SYMB_LEN) */
+#define RD_ENC_WF(d)                                                                           \
+  (__CPROVER_is_fresh (d, sizeof (struct reduce_data)) && (d)->u.encode.writer == vp_writer    \
+   && (d)->u.encode.curr_symb_len <= _REDUCE_MAX_SYMB_LEN && (d)->buf_bound <= _REDUCE_BUF_LEN)
+static inline void _reduce_output_byte (struct reduce_data *data, uint32_t pos)
+__CPROVER_requires (RD_ENC_WF (data) && pos < data->buf_bound)
+__CPROVER_assigns (__CPROVER_object_whole (data))
+__CPROVER_ensures (data->u.encode.curr_symb_len >= 1 && data->u.encode.curr_symb_len <= _REDUCE_MAX_SYMB_LEN)
+__CPROVER_ensures (data->u.encode.curr_symb[data->u.encode.curr_symb_len - 1] == __CPROVER_old (data->buf[pos]));
+
+static inline int _reduce_symb_flush (struct reduce_data *data, int ref_tag)
+__CPROVER_requires (RD_ENC_WF (data) && ref_tag >= 0 && ref_tag <= _REDUCE_REF_TAG_LONG)
+__CPROVER_assigns (__CPROVER_object_whole (data))
+__CPROVER_ensures (data->u.encode.curr_symb_len == 0 || (__CPROVER_return_value == 0 && data->u.encode.curr_symb_len == __CPROVER_old (data->u.encode.curr_symb_len)));
 #endif
